@@ -229,7 +229,7 @@ COMMON = """CONSTANTS
 
 FAMILY = {
     "binding": {
-        "module": "MC_binding",
+        "module": "MC_binding", "extra": "  ParamAlts <- C_ParamAlts\n",
         "quick": dict(Deposits="{0, 2, 4}", QosSet="{1}", Caps="{3}", Timeouts="{1}", Freqs="{0}", Totals="{1}",
                       Dts="{2}", Thresholds="{1}", Kinds='{"valid"}', MaxHeight=3, MaxCtx=0, MaxBatch=1),
         "thorough": dict(Deposits="{0, 2, 4, 6}", QosSet="{1, 3}", Caps="{3}", Timeouts="{1}", Freqs="{0}", Totals="{1}",
@@ -273,6 +273,7 @@ def cfg_text(family, tier, prop):
     t = COMMON
     for k, v in fam[tier].items():
         t += "  %s = %s\n" % (k, v)
+    t += fam.get("extra", "")
     t += "  WithPrep = %s\n" % ("TRUE" if prop == "C19" else "FALSE")
     t += "SPECIFICATION MCSpec\nCONSTRAINT MCConstraint\nVIEW MCView\nCHECK_DEADLOCK FALSE\n"
     inv, prp = TLC_NAMES[prop]
